@@ -104,6 +104,21 @@ func (e *Engine) concretize(s *State, tag *Term, f func(s *State, tag *Term)) {
 		}
 		return
 	}
+	if tag.K != KInt {
+		// a dynamic type fixed by an assumed equality (e.g. a callee's `ensures typeis(result, T)`)
+		for _, c := range s.pc {
+			if c.isOp("=") && len(c.Args) == 2 {
+				if c.Args[0] == tag && c.Args[1].K == KInt {
+					tag = c.Args[1]
+					break
+				}
+				if c.Args[1] == tag && c.Args[0].K == KInt {
+					tag = c.Args[0]
+					break
+				}
+			}
+		}
+	}
 	f(s, tag)
 }
 
@@ -124,6 +139,12 @@ func (e *Engine) doInvoke(s *State, x ssa.CallInstruction, args []Value) ([]*Sta
 			dt := e.typeByID[tag.I]
 			fn := e.lookupMethod(dt, c.Method)
 			if fn == nil {
+				if it, ok := c.Value.Type().Underlying().(*types.Interface); ok && !types.Implements(dt, it) {
+					// an interface value's dynamic type implements its static type: this combination of
+					// ite branches is infeasible
+					st.dead = true
+					return
+				}
 				e.fail("no method %s on %v", c.Method.Name(), dt)
 			}
 			var rv Value
